@@ -8,7 +8,8 @@
    part 1, a layout row of a stated shape in part 2). *)
 From Coq Require Import ZArith List Bool Lia.
 Import ListNotations.
-From Urwid Require Import PyBase Edit EditSpec EditProofs EditLayoutProofs.
+From Urwid Require Import PyBase PyList Utf8 Width Utf8Proofs Edit EditSpec EditProofs EditLayoutProofs EditBytes EditBytesProofs EditOnTextLayout.
+From Urwid Require TextLayout.
 Open Scope Z_scope.
 
 (* ===== part 1: every history of events, arbitrary layout data ===== *)
@@ -222,14 +223,134 @@ Theorem row_end_on_last_character :
 Proof. exact row_end_text. Qed.
 Print Assumptions row_end_on_last_character.
 
+(* ===== part 2b: the row shape is not a hypothesis for the layouts of StandardTextLayout =====
+   C03's model of text_layout.py (Model/TextLayout.v, tied to the code by C03's own check) and its
+   invariants are imported read-only.  [conv_layout] is the layout structure as the harness sends it. *)
+
+(* every character of every text segment of every row of StandardTextLayout.layout - any text, width,
+   alignment, wrap mode - satisfies cell_in_row *)
+Theorem standard_layout_rows_have_cell_shape :
+  forall cw, (forall c, 0 <= cw c <= 2) -> cw 32 = 1 ->
+  forall t width align wrap ell L ln sc o e p ch,
+    1 <= width -> TextLayout.layout cw t width align wrap ell = Ok L -> In ln L ->
+    In (TextLayout.SText sc o e) ln -> o <= p < e -> nthz t p = Some ch ->
+    exists x0, cell_in_row cw t (conv_line ln) p x0 (calc_width cw t o p).
+Proof. exact standard_layout_cell_in_row. Qed.
+Print Assumptions standard_layout_rows_have_cell_shape.
+
+(* click_cell with the layout StandardTextLayout computes for the displayed text: in the view of the
+   Edit (shifted to the cursor or not), a click with button 1 on any column of the cell of any
+   displayed character of an editable row puts the cursor on that character *)
+Theorem click_cell_on_standard_layout :
+  forall cw, (forall c, 0 <= cw c <= 2) -> cw 32 = 1 ->
+  forall upper lower s w align wrap ell L row sc o e p ch,
+    1 <= w -> TextLayout.layout cw (disp s) w align wrap ell = Ok L ->
+    let lay := conv_layout L in
+    let view := get_line_translation cw s w lay in
+    snd (position_coords cw s w lay 0) <= row < zlen view -> 0 <= row ->
+    In (TextLayout.SText sc o e) (nth (Z.to_nat row) L []) -> o <= p < e -> nthz (disp s) p = Some ch ->
+    exists x0,
+      cell_in_row cw (disp s) (nth (Z.to_nat row) view []) p x0 (calc_width cw (disp s) o p) /\
+      forall col, x0 + calc_width cw (disp s) o p <= col < x0 + calc_width cw (disp s) o p + cw ch ->
+        step cw upper lower s (EClick 1 col row w lay) =
+        (with_pref (put s (text s) (clampz (p - zlen (caption s)) 0 (zlen (text s)))) (Some (PInt col, w)),
+         [], Ok (RBool true)).
+Proof. exact click_cell_standard_layout. Qed.
+Print Assumptions click_cell_on_standard_layout.
+
+(* ===== part 3: bytes mode under the utf8 byte encoding (Model/EditBytes.v) =====
+   caption and text are bytes; move_prev_char / move_next_char / calc_width / calc_text_pos are C11's
+   model of str_util (mode MUtf8, decode_one arithmetic re-translated from the source every run).
+   [encs t] = UTF-8 encoding of the code points t, [boff t k] = byte offset of character index k. *)
+
+(* --- pos_on_char_boundary_inv: from a state whose caption and text are UTF-8 and whose offset is the
+       byte offset of a character index (OnB), EVERY history of events keeps it so - printable /
+       multi-character / unencodable / unused key strings, tab, enter, left, right, backspace, delete
+       unconditionally; up, down, home, end and clicks provided the layout they carry cuts the displayed
+       text at character boundaries (every segment offset is a boff of it: [lay_bnd]); set_edit_pos
+       provided its argument designates a boundary ([evs_ok]).  The harness counts how often real
+       layouts satisfy lay_bnd (always, so far). --- *)
+Theorem pos_on_char_boundary_inv :
+  forall wcw es sb, OnB sb -> evs_ok wcw sb es ->
+    Forall (fun o => OnB (fst (fst o))) (snd (brun wcw sb es)) /\ OnB (fst (brun wcw sb es)).
+Proof. intros wcw es sb. exact (brun_OnB wcw (fun c => [c]) (fun u => u) es sb). Qed.
+Print Assumptions pos_on_char_boundary_inv.
+
+(* what OnB means: the text is valid UTF-8 and so are both halves around the offset (CPython's strict
+   decoder accepts them), i.e. the offset is never inside a multi-byte character *)
+Theorem on_boundary_decodes :
+  forall sb, OnB sb ->
+    exists t k, strict_decode (text sb) = Some t /\
+                strict_decode (takez (pos sb) (text sb)) = Some (takez k t) /\
+                strict_decode (dropz (pos sb) (text sb)) = Some (dropz k t) /\
+                0 <= pos sb <= zlen (text sb).
+Proof. exact OnB_decodes. Qed.
+Print Assumptions on_boundary_decodes.
+
+Theorem bytes_init_on_boundary :
+  forall c t k ml tab, scalars c -> scalars t -> 0 <= k <= zlen t ->
+    OnB (init (encs c) (encs t) (Some (boff t k)) ml tab None VEdit).
+Proof. exact init_OnB. Qed.
+Print Assumptions bytes_init_on_boundary.
+
+(* one event *)
+Theorem pos_on_char_boundary_step :
+  forall wcw sb e, OnB sb -> ev_ok sb e -> OnB (fst (fst (bstep wcw sb e))).
+Proof. intros wcw. exact (bstep_OnB wcw (fun c => [c]) (fun u => u)). Qed.
+Print Assumptions pos_on_char_boundary_step.
+
+(* --- simulation through the boundary map: when the bytes state sb represents the character-level
+       state ss (text sb = encs (text ss), pos sb = boff (text ss) (pos ss); generalized UTF-8: any code
+       points below 0x110000), a printable key that str.encode accepts, enter, left, right, backspace and
+       delete take sb to a state that represents EditSpec.ref_key ss (the character-level reference
+       editor of part 1: insert at the cursor, delete the character before / after, move by one), with
+       the same return value; the signals chain from the old to the new bytes text. --- *)
+Theorem bytes_keys_simulate_reference :
+  forall wcw upper lower sb ss k w lay lay',
+    Rb sb ss -> edit_key k ->
+    let '(sb', sg, r) := bkeypress wcw sb k w lay in
+    Rb sb' (fst (ref_key (Width.cw wcw) upper lower ss k w lay')) /\
+    r = snd (ref_key (Width.cw wcw) upper lower ss k w lay') /\
+    chain (text sb) sg (text sb') /\ (r = Ok RUnhandled -> sg = []).
+Proof. exact bkey_sim. Qed.
+Print Assumptions bytes_keys_simulate_reference.
+
+(* tab is the one editing key that does NOT commute with the boundary map: the number of blanks is
+   8 - (BYTE offset mod 8) (edit.py: 8 - (self.edit_pos % 8)), not 8 - (character offset mod 8); apart
+   from that count it is the insertion of blanks at the cursor (recorded observation, not flagged) *)
+Theorem bytes_tab_inserts_blanks :
+  forall wcw sb ss w lay,
+    Rb sb ss ->
+    let n := 8 - (pos sb mod 8) in
+    let '(sb', sg, r) := bkeypress wcw sb KTab w lay in
+    if allow_tab ss then
+      Rb sb' (put ss (ins_at (text ss) (pos ss) (spaces n)) (pos ss + zlen (spaces n))) /\ r = Ok RHandled /\
+      chain (text sb) sg (text sb')
+    else sb' = sb /\ r = Ok RUnhandled /\ sg = [].
+Proof. exact btab_sim. Qed.
+Print Assumptions bytes_tab_inserts_blanks.
+
+(* the layout maps on bytes return character boundaries when the layout cuts at boundaries *)
+Theorem bytes_column_to_offset_on_boundary :
+  forall wcw d lay pc row p,
+    Forall cp d -> lay_bnd d lay -> bcalc_pos wcw (encs d) lay pc row = Ok p -> bnd d p.
+Proof. exact bcalc_pos_bnd. Qed.
+Print Assumptions bytes_column_to_offset_on_boundary.
+
 (* ===== what is NOT proved here (oracle / correspondence only) =====
-   - bytes mode and other encodings ("never inside a multi-byte character"): there is no bytes model;
-     the harness oracle checks on a separate bytes stream (utf-8, euc-jp, big5, latin-1) that both
-     halves of the text around the offset decode and that text/offset follow the reference editor.
+   - bytes mode under the OTHER byte encodings (euc-jp, big5, latin-1: 'wide' / 'narrow'): no model; the
+     harness oracle checks on a separate stream that both halves of the text around the offset decode
+     and that text/offset follow the reference editor.
+   - bytes mode, ILL-FORMED text (not the encoding of code points): no invariant is claimed; what the
+     code does is shown by the examples ill_formed_* below (IndexError, or a "character" that is a
+     lead byte with the continuation bytes that happen to follow).
+   - bytes mode, up/down/home/end/click: correspondence + oracle; the theorem covers the boundary
+     invariant (under lay_bnd), not the simulation of the str-mode coordinate maps.
    - the drawn canvas: the cursor cell of the rendered canvas holds the character at the offset,
      rows() == canvas rows, render never raises (oracle on every render event).
-   - that the layouts produced by StandardTextLayout have the shape assumed in part 2 is C03's subject;
-     the oracle builds its own cell map from each layout structure and compares.
+   - part 2b discharges the row shape for C03's MODEL of StandardTextLayout; that the layout data the
+     harness sends equals that model's output is C03's correspondence (the harness also counts the shape
+     on the real layouts: hyp:* counters), and the oracle builds its own cell map and compares.
    - highlight: not covered (never non-None through the modelled API; AST-scanned every run). *)
 
 (* ===== non-vacuity ===== *)
@@ -305,4 +426,50 @@ Example foreign_upper_rejected :
   let s0 := init [] [] None false false None (integer_variant 36 false) in
   let '(s, outs) := run cw0 up lo0 s0 [EKey (KText [383]) 9 []; EKey (KText [115]) 9 []; EKey (KText [83]) 9 []] in
   (text s, map snd outs) = ([115; 83], [Ok RUnhandled; Ok RHandled; Ok RHandled]).
+Proof. vm_compute. reflexivity. Qed.
+
+(* ===== bytes mode: non-vacuity and the ill-formed cases ===== *)
+Definition wcw0 (c : Z) : Z := if c =? 128512 then 2 else 1.
+
+(* "a<U+1F600>b" as bytes, cursor at the end: left, left, backspace, right, delete *)
+Example bytes_run_somewhere :
+  let t := [97; 128512; 98] in
+  let s0 := init [] (encs t) None true false None VEdit in
+  let '(s, outs) := brun wcw0 s0 [EKey KLeft 9 []; EKey KLeft 9 []; EKey KBackspace 9 []; EKey KRight 9 [];
+                                  EKey KDelete 9 []; EKey (KText [233]) 9 []] in
+  (text s0, pos s0, map (fun o => pos (fst (fst o))) outs, text s, map snd outs)
+  = ([97; 240; 159; 152; 128; 98], 6, [5; 1; 0; 4; 4; 6], [240; 159; 152; 128; 195; 169],
+     [Ok RHandled; Ok RHandled; Ok RHandled; Ok RHandled; Ok RHandled; Ok RHandled]).
+Proof. vm_compute. reflexivity. Qed.
+
+Example bytes_on_boundary_somewhere :
+  OnB (init (encs [99; 58]) (encs [97; 128512; 98]) (Some (boff [97; 128512; 98] 2)) true false None VEdit)
+  /\ boff [97; 128512; 98] 2 = 5.
+Proof.
+  split; [|reflexivity]. apply init_OnB.
+  - repeat constructor.
+  - repeat constructor.
+  - unfold zlen; cbn; lia.
+Qed.
+
+(* ill-formed text 1: only continuation bytes in front of the cursor: move_prev_char walks off the
+   start, Python's negative indices wrap around the text, and the walk ends in IndexError *)
+Example ill_formed_left_raises :
+  let s0 := init [] [128; 128] (Some 1) true false None VEdit in
+  snd (bstep wcw0 s0 (EKey KLeft 9 [])) = Err IndexError /\
+  snd (bstep wcw0 s0 (EKey KBackspace 9 [])) = Err IndexError.
+Proof. vm_compute. split; reflexivity. Qed.
+
+(* ill-formed text 2: a truncated 4-byte sequence (lead + one continuation byte) followed by 'a': the
+   two bytes are treated as one character by left / backspace *)
+Example ill_formed_truncated_is_one_character :
+  let s0 := init [] [240; 159; 97] (Some 2) true false None VEdit in
+  pos (fst (fst (bstep wcw0 s0 (EKey KLeft 9 [])))) = 0 /\
+  text (fst (fst (bstep wcw0 s0 (EKey KBackspace 9 [])))) = [97].
+Proof. vm_compute. split; reflexivity. Qed.
+
+(* outside the hypotheses: set_edit_pos with a byte offset inside a character puts the cursor there *)
+Example set_edit_pos_can_leave_the_boundaries :
+  let s0 := init [] (encs [128512]) None true false None VEdit in
+  pos (fst (fst (bstep wcw0 s0 (ESetPos 2)))) = 2.
 Proof. vm_compute. reflexivity. Qed.
